@@ -21,7 +21,7 @@ const (
 
 func init() {
 	register("C18", "other", "T4 GuardedBy (normalised window test, through the call chains), T2 Dominates (peer removed before a session can start), T1 LockSet, T17 (close once)",
-		"Decides the flow-control and peer-removal shape: every RequestChunks call of the peer leecher is reached — on every call chain from an entry of the package — only on the not-suspended edge, only on the Done()==false edge, and only when requested < processed + parallelism, after which requested equals processed + parallelism and exactly the difference is requested; processed chunks are counted once, on the IsProcessed edge. Every StartSession call of the base leecher is reached only when not terminated, no session is ongoing and candidates exist; in UnregisterPeer the peer is removed from the peer set before anything that can start a new session runs; Terminate sets the terminated flag before terminating the session; the exported methods hold the mutex (Routine is lock-required: checked at its call sites); the peer leecher closes its quit channel at most once under its mutex. What the application's session callbacks do is not decided.",
+		"Decides the flow-control and peer-removal shape: every RequestChunks call of the peer leecher is reached — on every call chain from an entry of the package — only on the not-suspended edge, only on the Done()==false edge, and only when requested < processed + parallelism, after which requested equals processed + parallelism and exactly the difference is requested; processed chunks are counted once, on the IsProcessed edge (the test may sit in a side-effect-free helper that returns the deficit, the count may be made by a helper that gets the callback), and every run that advances the processed counter also replaces the processing list. Every StartSession call of the base leecher is reached only when not terminated, no session is ongoing and candidates exist; in UnregisterPeer the peer is removed from the peer set before anything that can start a new session runs; Terminate sets the terminated flag before terminating the session; the exported methods hold the mutex (Routine is lock-required: checked at its call sites); the peer leecher closes its quit channel at most once under its mutex. What the application's session callbacks do is not decided.",
 		[]string{"session callbacks (StartSession, SelectSessionPeerCandidates, ...) are opaque and may read the Peers set", "Routine() is called by embedding leechers only with Mu held (documented convention)"},
 		runC18)
 }
@@ -71,14 +71,22 @@ func runC18(c *core.Ctx) {
 			}
 		}
 		want := core.ParseLinCmp("requested - processed - P + 1 <= 0")
+		amount := map[string]int64{"processed": 1, "P": 1, "requested": -1}
 		// locals holding parts of the comparison (target := processed + P) are looked through while current
-		below := func(g *core.FuncInfo) func(core.Fact) bool {
+		belowDirect := func(g *core.FuncInfo) func(core.Fact) bool {
 			return func(ft core.Fact) bool {
 				lc, k := c18NormLinCmp(g, ft, namerOf(g))
 				return k && lc.Equal(want)
 			}
 		}
-		amount := map[string]int64{"processed": 1, "P": 1, "requested": -1}
+		// the comparison may be made inside a side-effect-free helper that returns the deficit (0 when
+		// the window is full): `n != 0` / `n > 0` about its current result then states the same
+		below := func(g *core.FuncInfo) func(core.Fact) bool {
+			direct := belowDirect(g)
+			return func(ft core.Fact) bool {
+				return direct(ft) || c18ResultImplies(g, ft, belowDirect, namerOf, amount)
+			}
+		}
 		nReq := 0
 		hasReq := map[*core.FuncInfo]bool{}
 		for _, fr := range sc.Frames {
@@ -104,13 +112,13 @@ func runC18(c *core.Ctx) {
 					switch {
 					case len(as) == 1 && as[0].RHS != nil:
 						// n's defining expression, evaluated where it is defined
-						okN = c18LinIs(c18LinAt(f, as[0].RHS, namer, as[0].Pt), amount)
+						okN = c18AmountIs(f, as[0].RHS, as[0].Pt, namerOf, amount)
 					case len(as) == 0 && c18ParamIndex(f, nv) >= 0 && !fr.Root && len(fr.Callers) > 0:
 						// n is handed in: the argument of every call, evaluated at the call
 						okN = true
 						for _, cl := range fr.Callers {
 							pf, i := cl.Parent.F, c18ParamIndex(f, nv)
-							if cl.Detached || i >= len(cl.Site.Call.Args) || !c18LinIs(c18LinAt(pf, cl.Site.Call.Args[i], namerOf(pf), cl.Site.Pt), amount) {
+							if cl.Detached || i >= len(cl.Site.Call.Args) || !c18AmountIs(pf, cl.Site.Call.Args[i], cl.Site.Pt, namerOf, amount) {
 								okN = false
 							}
 						}
@@ -173,25 +181,69 @@ func runC18(c *core.Ctx) {
 			sw := fr.F
 			for _, a := range assignsToField(sw, plT+".totalProcessed") {
 				nInc++
-				ok, _ := sc.Guarded(fr, a.Pt, c18CallFact(plCB+"IsProcessed", true), true)
+				ok, _ := sc.Guarded(fr, a.Pt, c18CallbackFact(sc, plCB+"IsProcessed", true), true)
 				// processed++ / processed += 1 / processed = processed + 1
 				byOne := a.Tok == token.INC
+				// or: processed += n with n the count, returned by a helper, of the chunks for which
+				// IsProcessed answered true
+				byCount := false
 				if a.RHS != nil {
+					// the local (if any) of the right-hand side that holds a call's result
+					var amt *types.Var
+					ast.Inspect(a.RHS, func(n ast.Node) bool {
+						if id, isID := n.(*ast.Ident); isID && amt == nil {
+							if v := varOf(sw, id); v != nil {
+								if call, _, _ := c18TupleDef(sw, v); call != nil {
+									amt = v
+								}
+							}
+						}
+						return true
+					})
 					swNamer := func(e ast.Expr) string {
 						if fieldNameOf(sw, e) == plT+".totalProcessed" {
 							return "processed"
 						}
+						if v := varOf(sw, e); v != nil && v == amt {
+							return "n"
+						}
 						return ""
 					}
 					l := c18LinAt(sw, a.RHS, swNamer, a.Pt)
+					isCount := false
 					switch a.Tok {
 					case token.ADD_ASSIGN:
 						byOne = len(l.Coef) == 0 && l.C.IsInt64() && l.C.Int64() == 1
+						isCount = c18LinIs(l, map[string]int64{"n": 1})
 					case token.ASSIGN:
 						byOne = len(l.Coef) == 1 && coefIs(l, "processed", 1) && l.C.IsInt64() && l.C.Int64() == 1
+						isCount = c18LinIs(l, map[string]int64{"processed": 1, "n": 1})
+					}
+					if isCount && amt != nil {
+						call, idx, _ := c18TupleDef(sw, amt)
+						if h := c18CalleeOfExpr(sw, call); h != nil && sc.FrameOf(h) != nil {
+							byCount = c18CountsCallbackTrue(sc, sc.FrameOf(h), idx, plCB+"IsProcessed")
+						}
 					}
 				}
-				c.Check(ok && byOne, "processed counted once per processed chunk", "T4 GuardedBy", a.Stmt.Pos(), "totalProcessed++ on the IsProcessed edge, tested again for every chunk", "processed chunks are miscounted")
+				c.Check(ok && byOne || byCount, "processed counted once per processed chunk", "T4 GuardedBy", a.Stmt.Pos(), "totalProcessed++ on the IsProcessed edge, tested again for every chunk (or the count of such edges, made by a helper, is added)", "processed chunks are miscounted")
+				// a counted chunk leaves the processing list: whenever the counter is advanced, the list is
+				// replaced (by the chunks not yet processed) before the handler finishes — earlier in the
+				// same run, or on every continuation after the count
+				replaced := func(g *c17Frame) []core.Point {
+					var out []core.Point
+					for _, s := range assignsToField(g.F, plT+".processingChunks") {
+						if s.RHS != nil && (s.Tok == token.ASSIGN || s.Tok == token.DEFINE) && !mentionsField(g.F, s.RHS, plT+".processingChunks") {
+							out = append(out, s.Pt)
+						}
+					}
+					return out
+				}
+				okR, whyR := sc.PrecededBy(fr, a.Pt, replaced)
+				if !okR {
+					okR, whyR = c18FollowedBy(sc, fr, a.Pt, replaced, map[*c17Frame]bool{}, 4)
+				}
+				c.Check(okR, "counted chunks leave the processing list", "T7 Pairing", a.Stmt.Pos(), "every run that advances totalProcessed also replaces processingChunks", "chunks are counted as processed but stay in the processing list: they are counted again on the next sweep, so totalProcessed runs ahead and more chunks are requested than the parallelism limit allows ("+whyR+")")
 			}
 		}
 		c.ExpectAtLeast("totalProcessed updates", nInc, 1)
@@ -265,10 +317,12 @@ func runC18(c *core.Ctx) {
 		}
 		c.ExpectAtLeast("session-restart sites in UnregisterPeer", n, 1)
 		// an ongoing session with that peer is terminated
-		ts := f.CallsTo(blCB + "TerminateSession")
+		// (the callback may be called directly or in a helper that calls it on every path: the helper's
+		// call site is then the guarded place)
+		ts := sc.MustSites(fr, c18CallSites(blCB+"TerminateSession"))
 		okT := len(ts) >= 1
 		for _, t := range ts {
-			o, _ := f.GuardedBy(t.Pt, func(ft core.Fact) bool {
+			o, _ := f.GuardedBy(t, func(ft core.Fact) bool {
 				cm, k := core.NormCmp(ft)
 				if !k || cm.R == nil || cm.Op != token.EQL {
 					return false
